@@ -33,3 +33,105 @@ func HarnessC17Verbs() {
 	vassert(before == after, "C17/verbs-equivalent")
 	vreach("end")
 }
+
+// HarnessC17APIGroups
+// verif:bounds list 0..3/4 entries, <= 6 bytes
+func HarnessC17APIGroups() {
+	rules := c17List("rule", nondetRange("n", 0, vbound(3, 4)))
+	req := nondetString("req")
+	before := proxyv1alpha1.APIGroupMatches(rules, req)
+	after := proxyv1alpha1.APIGroupMatches(filterRules(rules), req)
+	vobserve("before", before)
+	vassert(before == after, "C17/apigroups-equivalent")
+	vreach("end")
+}
+
+// HarnessC17ResourceNames: note nil/empty lists are optional-field "match everything".
+// verif:bounds list 0..3/4 entries, <= 6 bytes
+func HarnessC17ResourceNames() {
+	rules := c17List("rule", nondetRange("n", 0, vbound(3, 4)))
+	req := nondetString("req")
+	before := proxyv1alpha1.ResourceNameMatches(rules, req)
+	after := proxyv1alpha1.ResourceNameMatches(filterRules(rules), req)
+	vobserve("before", before)
+	vassert(before == after, "C17/resourcenames-equivalent")
+	vreach("end")
+}
+
+// HarnessC17Resources
+// verif:bounds list 0..3/4 entries; resource/subresource <= 3 bytes
+func HarnessC17Resources() {
+	rules := c17List("rule", nondetRange("n", 0, vbound(3, 4)))
+	res := nondetStringN("res", 3)
+	sub := nondetStringN("sub", 3)
+	combined := res
+	if len(sub) > 0 {
+		combined = res + "/" + sub
+	}
+	before := proxyv1alpha1.ResourceMatches(rules, combined, sub)
+	after := proxyv1alpha1.ResourceMatches(filterRules(rules), combined, sub)
+	vobserve("before", before)
+	vassert(before == after, "C17/resources-equivalent")
+	vreach("end")
+}
+
+// HarnessC17Users: service accounts are passed through unchanged by normalizeRules.
+// verif:bounds users 0..3/4; service accounts 0..1
+func HarnessC17Users() {
+	users := c17List("rule", nondetRange("n", 0, vbound(3, 4)))
+	var sas []proxyv1alpha1.ServiceAccountRef
+	if nondetBool("hasSA") {
+		sas = append(sas, proxyv1alpha1.ServiceAccountRef{Namespace: nondetStringN("sans", 2), Name: nondetStringN("saname", 2)})
+	}
+	var user string
+	if nondetBool("userIsSA") {
+		user = "system:serviceaccount:" + nondetStringN("uns", 2) + ":" + nondetStringN("uname", 2)
+	} else {
+		user = nondetString("user")
+	}
+	before := proxyv1alpha1.UserOrServiceAccountMatches(users, sas, user)
+	after := proxyv1alpha1.UserOrServiceAccountMatches(filterRules(users), sas, user)
+	vobserve("before", before)
+	vassert(before == after, "C17/users-equivalent")
+	vreach("end")
+}
+
+// HarnessC17UserGroups
+// verif:bounds rule list 0..3/4; request groups 0..2/3
+func HarnessC17UserGroups() {
+	rules := c17List("rule", nondetRange("n", 0, vbound(3, 4)))
+	groups := c17List("grp", nondetRange("g", 0, vbound(2, 3)))
+	before := proxyv1alpha1.UserGroupMatches(rules, groups)
+	after := proxyv1alpha1.UserGroupMatches(filterRules(rules), groups)
+	vobserve("before", before)
+	vassert(before == after, "C17/usergroups-equivalent")
+	vreach("end")
+}
+
+// HarnessC17NonResourceURLs
+// verif:bounds list 0..3/4 entries
+func HarnessC17NonResourceURLs() {
+	rules := c17List("rule", nondetRange("n", 0, vbound(3, 4)))
+	req := nondetString("req")
+	before := proxyv1alpha1.NonResourceURLMatches(rules, req)
+	after := proxyv1alpha1.NonResourceURLMatches(filterRules(rules), req)
+	vobserve("before", before)
+	vassert(before == after, "C17/nonresourceurls-equivalent")
+	vreach("end")
+}
+
+// HarnessC17Idempotent: filterRules(filterRules(l)) == filterRules(l) element-wise.
+// verif:bounds list 0..3/4 entries
+func HarnessC17Idempotent() {
+	rules := c17List("rule", nondetRange("n", 0, vbound(3, 4)))
+	once := filterRules(rules)
+	twice := filterRules(once)
+	vassert(len(once) == len(twice), "C17/idempotent-length")
+	if len(once) == len(twice) {
+		for i := range once {
+			vassert(once[i] == twice[i], "C17/idempotent-elements")
+		}
+	}
+	vassert((once == nil) == (twice == nil), "C17/idempotent-nilness")
+	vreach("end")
+}
